@@ -26,6 +26,15 @@ CHECKS = {
         "Trusts CPython's compile/eval and ast.dump; keyword arguments on operator calls are out of the statement's domain.",
         "DESIGN.md section 4, C17",
     ),
+    "C15": (
+        "Hypothesis grammar-based generation of queries with 0-8 MetaData wrappers; oracle = pure reference model on a deep "
+        "copy (dump equality), multiset + outer-before-inner order of the extracted list, input-unchanged check",
+        "Randomised search over wrapper placements (source chain, adjacent, nested, lambda bodies, arguments, keyword values) "
+        "decided by two 10-line reference functions written from the statement, by multiset/order checks on the returned "
+        "list and by comparing ast.dump(include_attributes=True) of the argument before and after remove_empty_metadata.",
+        "Wrapper = function-form MetaData(src, dict-literal); extract_metadata is not required to preserve its argument.",
+        "DESIGN.md section 4, C15",
+    ),
 }
 
 NOT_YET = "check not built yet in this round (work in progress; see DESIGN.md section 4 for the planned generator/oracle)"
